@@ -8,9 +8,11 @@
   than plain decimal integers (0x.., 0o.., underscores) are compared model-vs-code on a few fixed strings only;
   `RetryFits` (blockRetryInterval·10⁹ < 2⁶³) and `NoEmptyClash` (no empty local value over a different shared value)
   are hypotheses whose excluded points are stated below (`retry_wrap_point`, `empty_local_point`) and are KNOWN
-  FINDINGS on the real code (findings/C20.json). time.ParseDuration: integer terms only (see the duration section).
+  FINDINGS on the real code (findings/C20.json). time.ParseDuration: texts of integer terms only (`1h30m`, `-5s`),
+  no fractions; hypothesis: the written total stays below 2^64 ns (excluded point `dur_wrap_point`).
 -/
 import SygmaModel.Model.C20
+import SygmaModel.Proofs.C20Dur
 namespace Sygma.C20
 
 section Helpers
@@ -234,6 +236,39 @@ theorem empty_local_point :
     let sh : Chain := [("id", .num 1 true), ("a", .num 7 false), ("c", .bool true)]
     noEmptyClashB loc sh = false ∧ Chain.get (mergeChain loc sh) "a" = some (.num 7 false) ∧
     Chain.get (mergeChain loc sh) "c" = some (.bool true) ∧ PMerge loc sh (mergeChain loc sh) = false := by decide
+
+/-! #### durations (integer terms) -/
+
+/-- **Durations.** For every sign and every list of written terms `<integer><unit>` whose total stays below 2^64 ns:
+    `time.ParseDuration` either fails or returns exactly the signed sum of what was written (no truncation, no wrap). -/
+theorem dur_property (neg : Bool) (terms : List (Nat × DUnit)) (hfit : durTotal terms < 2 ^ 64) :
+    PDur neg terms (parseDur neg terms) = true := by
+  unfold parseDur
+  split
+  · rfl
+  · cases hg : durGo 0 terms with
+    | none => rfl
+    | some d =>
+      have hd := durGo_sum terms 0 d hg (by omega)
+      simp only [Nat.zero_add] at hd
+      simp only
+      split
+      · simp [PDur, hd, *]
+      · split
+        · rfl
+        · simp [PDur, hd, *]
+
+/-- non-vacuity: `1h30m` is 5400 s; `-9223372036854775808ns` is the smallest Duration; one more overflows -/
+example : parseDur false [(1, .h), (30, .m)] = some 5400000000000 ∧
+    parseDur true [(9223372036854775808, .ns)] = some (-9223372036854775808) ∧
+    parseDur false [(9223372036854775808, .ns)] = none ∧ parseDur false [(2562048, .h)] = none := by decide
+
+/-- excluded point of `dur_property` (a quirk of Go's ParseDuration, reproduced by the real code in the corpus):
+    two terms of 2^63 ns wrap the uint64 accumulator to 0 and the text is accepted as the zero duration -/
+theorem dur_wrap_point :
+    parseDur false [(9223372036854775808, .ns), (9223372036854775808, .ns)] = some 0 ∧
+    PDur false [(9223372036854775808, .ns), (9223372036854775808, .ns)]
+      (parseDur false [(9223372036854775808, .ns), (9223372036854775808, .ns)]) = false := by decide
 
 end Property
 end Sygma.C20
